@@ -56,7 +56,11 @@ def run_case(case, rec):
              sample={k: case[k] for k in ("cands", "winner", "asn", "order")} | {"ballots": case["ballots"][:8], "n_ballots": len(case["ballots"])})
     res = [a for a in r["result"] if rc.key_of(a, r["NEB"], r["NEN"]) is not None]
     if not res:
-        rec.count("library_says_not_auditable")  # C04's business
+        # an audit is possible (the optimum is finite) and nothing is returned: there is no largest difficulty to equal
+        # the optimum (C04 reports the same run as a wrong "not auditable")
+        rec.count("library_says_not_auditable")
+        rec.violation("c15.optimal", "nothing_returned_although_a_sufficient_set_of_finite_difficulty_exists",
+                      {"optimum": dstar, "order_forcing_optimum": list(wit) if wit else None})
         return
     got = max(a.difficulty for a in res)
     rec.count("optimum_compared")
